@@ -1855,6 +1855,11 @@ class Engine(object):
         self.func_stack.append(f.qual or f.name)
         depth0 = P.depth
         P.depth += 1
+        own_floor = False
+        if ctx.spec and self._spec_floor is None:
+            from .values import fresh_id
+            self._spec_floor = fresh_id()
+            own_floor = True
         try:
             if isinstance(f.node, ast.Lambda):
                 res = self.ev(f.node.body, P, c2)
@@ -1893,6 +1898,8 @@ class Engine(object):
                 return [self.merge_pure(P, res)]
             return res
         finally:
+            if own_floor:
+                self._spec_floor = None
             self.func_stack.pop()
 
     raised = []
@@ -2253,12 +2260,26 @@ class Engine(object):
             P.written.add("py:%s.%s" % (o.cls[1] if o.cls else "?", attr))
             return
         if isinstance(o, Ref):
+            self.guard_spec_write(o)
             self.oblige(P, "safe.null.%s#%d" % (attr, self.site()), o.t != NULL, "safe")
             self.hwrite(P, o.t, o.cls, attr, v)
             return
         raise Unsupported("attribute store on %r" % (o,))
 
+    _spec_floor = None
+
+    def guard_spec_write(self, o):
+        """Contract text may only call PURE functions: forks of a call made from contract text are merged into one value and
+        the stores of all but one fork are dropped, so a callee that writes into an object that existed before the call
+        (a cache filled on first use) would be mis-modelled.  Such a call leaves the subset (never an alarm)."""
+        if self._spec_floor is None or not isinstance(o, (Handle, Ref)):
+            return
+        if isinstance(o, Handle) and o.id >= self._spec_floor:
+            return          # an object created by this very call
+        raise Unsupported("a function called from contract text writes into an existing object (contract text may only call pure functions)")
+
     def guard_global_write(self, o, P=None):
+        self.guard_spec_write(o)
         if isinstance(o, Handle) and o.id in getattr(self, "_global_ids", ()) and not getattr(self, "_in_module_init", False):
             if P is not None and (self.contracts.get(self.current) or {}).get("module_state") == "obligation":
                 # this contract's frame excludes module-level state and SAYS a write is the violation (C10)
